@@ -51,12 +51,14 @@ func TestMain(m *testing.M) {
 			"General position is enforced constructively point by point with exact arithmetic: a candidate forming a near-collinear triple or near-cocircular quadruple with the accepted points is redrawn up to 3 times, then given up " +
 			"(counters gen_points_tried / _refused_by_margin / _dropped; measured < 1 % refused). " +
 			"Oracle in exact arithmetic: vertex i == input point i bit for bit and every index in range; every triangle non-degenerate and all of one orientation; no two triangle interiors intersect (pairwise separating-edge test); no input point strictly inside a circumcircle. " +
-			"Completeness of the hull is not demanded (classes empty-or-partial-output/*). Non-trivial = at least one triangle returned and n >= 5; distinct by case JSON.",
+			"Completeness of the hull is not demanded (classes empty-or-partial-output/*). Because the four conditions are met by returning nothing (a flipped in-circle sign does exactly that), one non-vacuity condition is added, signature missing-interior-triangle: " +
+			"a triangle of the input's Delaunay triangulation (reference: all index triples with an empty circumcircle) whose closed circumdisk lies inside the convex hull of the input must be returned - its circumcircle is empty whatever enclosing vertices an implementation adds, since those are outside the hull. " +
+			"Non-trivial = at least one triangle returned and n >= 5; distinct by case JSON.",
 		Assumptions: []string{
 			fmt.Sprintf("general position is read with a margin: every triple has |cross| >= %g*l^2 and every quadruple |in-circle det| >= %g*L^4 (l, L = L-infinity diameter of the triple / quadruple); sets violating it are never generated and are skipped when met in a replay file", muCol, muCirc),
 			"the margin cannot be extended to the implementation's auxiliary enclosing vertices (their position is not part of the contract); a float64 in-circle evaluation involving them is unreliable only within ~1e-14 relative of degeneracy, estimated < 1e-2 such events per thorough run, none observed",
 			"offsets are limited to 1e9 times the smaller of the x/y scales, so that coordinates keep >= 7 significant digits of resolution inside the set",
-			"missing hull triangles and empty results are not violations: the statement does not claim completeness and a finite enclosing triangle cannot give it",
+			"missing hull triangles and empty results are not violations as such: the statement does not claim completeness and a finite enclosing triangle cannot give it; only Delaunay triangles whose circumdisk lies inside the input's convex hull are required to be present (added non-vacuity condition, not one of the four stated ones)",
 		},
 	})
 }
@@ -433,9 +435,9 @@ func genCase(t *rapid.T) Case {
 	c := Case{Dist: rapid.SampledFrom(dists).Draw(t, "dist"), Order: "drawn"}
 	n := 0
 	if rapid.IntRange(0, 2).Draw(t, "nk") == 0 {
-		n = 3 + int(8*uni(t, "n.small")) // 3..10
+		n = 5 + int(8*uni(t, "n.small")) // 5..12 candidates, about one in eight is left out below
 	} else {
-		n = 3 + int(66*uni(t, "n")) // 3..68 candidates, at most 60 kept
+		n = 5 + int(64*uni(t, "n")) // 5..68 candidates, at most 60 kept
 	}
 	// frame: the unit square is mapped to [ox, ox+sx] x [oy, oy+sy]
 	var s float64
@@ -701,6 +703,28 @@ func runCase(c Case, o *vh.Obs) *vh.Failure {
 		o.NonTrivial()
 	}
 	o.Count("triangles_returned", len(tris))
+	{
+		// statistic only (float64): how many returned triangles are demanded by condition (5) below
+		safe := 0
+		for _, t := range tris {
+			mx, my, r := circumApprox([3]P{c.Pts[t[0]], c.Pts[t[1]], c.Pts[t[2]]})
+			in := r == r
+			for i := 0; i < len(hullIdx) && in; i++ {
+				p, q := c.Pts[hullIdx[i]], c.Pts[hullIdx[(i+1)%len(hullIdx)]]
+				ex, ey := q[0]-p[0], q[1]-p[1]
+				in = ex*(my-p[1])-ey*(mx-p[0]) >= r*math.Hypot(ex, ey)
+			}
+			if in {
+				safe++
+			}
+		}
+		o.Count("triangles_returned_with_circumdisk_inside_hull", safe)
+		if safe > 0 {
+			o.Class("returned-triangles-demanded-by-non-vacuity/some")
+		} else {
+			o.Class("returned-triangles-demanded-by-non-vacuity/none")
+		}
+	}
 	o.Count("triangles_of_full_triangulation", full)
 	corners := func(t tri) [3]P { return [3]P{c.Pts[t[0]], c.Pts[t[1]], c.Pts[t[2]]} }
 
@@ -784,29 +808,35 @@ func runCase(c Case, o *vh.Obs) *vh.Failure {
 		for i, v := range hullIdx {
 			hullPts[i] = c.Pts[v]
 		}
-		demanded := 0
 		for _, t := range ref {
 			if have[t] {
 				continue
 			}
+			o.Count("missing_triangles", 1)
 			q := corners(t)
-			// float screen (may only drop demands, never add one): disk clearly outside the bounding box
-			bx, by, cx, cy := q[1][0]-q[0][0], q[1][1]-q[0][1], q[2][0]-q[0][0], q[2][1]-q[0][1]
-			d := 2 * (bx*cy - by*cx)
-			ux, uy := (cy*(bx*bx+by*by)-by*(cx*cx+cy*cy))/d, (bx*(cx*cx+cy*cy)-cx*(bx*bx+by*by))/d
-			r, mx, my := math.Hypot(ux, uy), q[0][0]+ux, q[0][1]+uy
+			// float screen (can only drop a demand, never add one): disk not inside the bounding box
+			mx, my, r := circumApprox(q)
 			if !(mx-r >= lo[0] && mx+r <= hi[0] && my-r >= lo[1] && my+r <= hi[1]) {
+				o.Count("missing_triangles_disk_leaves_bounding_box", 1)
 				continue
 			}
-			if diskInsideHull(q[0], q[1], q[2], hullPts) {
-				demanded++
-				return vh.Failf("missing-interior-triangle", "Delaunay triangle %v = %v is not returned although its circumdisk (centre (%g, %g), radius %g) lies inside the convex hull of the input, out of reach of any enclosing vertex; %d triangles returned, a full triangulation has %d (%s)",
-					t, q, mx, my, r, len(tris), full, frame)
+			if !diskInsideHull(q[0], q[1], q[2], hullPts) {
+				o.Count("missing_triangles_disk_leaves_hull", 1)
+				continue
 			}
+			return vh.Failf("missing-interior-triangle", "Delaunay triangle %v = %v is not returned although its circumdisk (centre (%g, %g), radius %g) lies inside the convex hull of the input, out of reach of any enclosing vertex; %d triangles returned, a full triangulation has %d (%s)",
+				t, q, mx, my, r, len(tris), full, frame)
 		}
-		_ = demanded
 	}
 	return nil
+}
+
+// circumApprox is the float64 circumcentre and radius (statistics and screening only).
+func circumApprox(q [3]P) (mx, my, r float64) {
+	bx, by, cx, cy := q[1][0]-q[0][0], q[1][1]-q[0][1], q[2][0]-q[0][0], q[2][1]-q[0][1]
+	d := 2 * (bx*cy - by*cx)
+	ux, uy := (cy*(bx*bx+by*by)-by*(cx*cx+cy*cy))/d, (bx*(cx*cx+cy*cy)-cx*(bx*bx+by*by))/d
+	return q[0][0] + ux, q[0][1] + uy, math.Hypot(ux, uy)
 }
 
 func TestC20(t *testing.T) {
@@ -863,6 +893,46 @@ func TestPredicateFilters(t *testing.T) {
 	}
 	if !interiorsIntersect([3]P{sq[0], sq[1], sq[2]}, [3]P{sq[1], sq[2], sq[3]}) || !interiorsIntersect([3]P{sq[0], sq[2], sq[1]}, [3]P{sq[0], sq[1], sq[2]}) {
 		t.Fatal("overlapping triangles not reported")
+	}
+	big4 := []P{{0, 0}, {4, 0}, {4, 4}, {0, 4}}
+	for _, tc := range []struct {
+		t    [3]P
+		want bool
+	}{
+		{[3]P{{1, 2}, {3, 2}, {2, 3}}, true},                        // centre (2,2) radius 1
+		{[3]P{{1, 2}, {2, 4}, {3, 2}}, true},                        // centre (2,2.75) radius 1.25: tangent to the top edge
+		{[3]P{{1, 3.5}, {3, 3.5}, {2, 2.5}}, false},                 // centre (2,3.5) radius 1: all corners inside, disk pokes through the top edge
+		{[3]P{{0, 0}, {4, 0}, {4, 4}}, false},                       // centre (2,2) radius 2.83
+		{[3]P{{0.5, 0.5}, {1, 0.5}, {0.75, 0.25}}, true},            // centre (0.75,0.5) radius 0.25
+		{[3]P{{3.5, 0.5}, {3.75, 0.25}, {3.5, 0.0009765625}}, true}, // radius just under 0.25 around (3.5,0.2505)
+		{[3]P{{3.5, 0.5}, {3.75, 0.25}, {3.5, -0.0009765625}}, false},
+	} {
+		if got := diskInsideHull(tc.t[0], tc.t[1], tc.t[2], big4); got != tc.want {
+			mx, my, r := circumApprox(tc.t)
+			t.Fatalf("diskInsideHull(%v) = %v, want %v (centre %v,%v radius %v)", tc.t, got, tc.want, mx, my, r)
+		}
+	}
+	for it := 0; it < 300; it++ {
+		n := 4 + r.Intn(10)
+		pts := make([]P, n)
+		for i := range pts {
+			pts[i] = pt(1, 0)
+		}
+		if !generalPosition(pts) {
+			continue
+		}
+		h := hull(pts)
+		for i := range h { // convex, counter-clockwise, everything inside
+			a, b := pts[h[i]], pts[h[(i+1)%len(h)]]
+			for k, p := range pts {
+				if k != h[i] && k != h[(i+1)%len(h)] && orient(a, b, p) <= 0 {
+					t.Fatalf("hull(%v) = %v: point %d is not left of edge %d", pts, h, k, i)
+				}
+			}
+		}
+		if ref := delaunayTriples(pts); len(ref) != 2*n-2-len(h) {
+			t.Fatalf("delaunayTriples(%v) has %d triangles, 2n-2-h = %d", pts, len(ref), 2*n-2-len(h))
+		}
 	}
 	if len(hull(sq[:])) != 4 {
 		t.Fatalf("hull(square+centre) = %v", hull(sq[:]))
